@@ -648,3 +648,22 @@ Definition c46_holds_b (bs : Z) (docs : list doc) : bool :=
         && (if sd_wf_b docs then external_b docs st else true)
         && (if sd_wf_b docs && aligned_b docs then seq_b docs st else true)
   end.
+
+(* ------------------------------------------------------------------ hypotheses of the theorems, as propositions *)
+
+(* a run: one start, then documents other than start/stop, then one stop *)
+Definition is_run (docs : list doc) : Prop :=
+  exists s body m, docs = DStart s :: body ++ [DStop m] /\ forallb is_body body = true.
+
+(* no descriptor uid (or reference to one from an event) is also a stream name *)
+Definition ns_disjoint (docs : list doc) : Prop :=
+  forall r n, In r (desc_refs docs) -> In n (desc_names docs) -> r <> n.
+
+(* received stream datums have start <= stop *)
+Definition sd_wf (docs : list doc) : Prop :=
+  forall d, In d (stream_datums docs) -> (sd_i0 d <= sd_i1 d)%Z.
+
+(* seq_nums = indices + a constant per stream resource *)
+Definition seq_aligned (off : string -> Z) (docs : list doc) : Prop :=
+  forall d, In d (stream_datums docs) ->
+    sd_q0 d = (sd_i0 d + off (sd_sres d))%Z /\ sd_q1 d = (sd_i1 d + off (sd_sres d))%Z.
